@@ -124,25 +124,99 @@ Proof.
 Qed.
 Print Assumptions c09_value_consistency.
 
-(* EI is never negative -- PARTIAL.  Full statement wanted:
-     forall Phi, cdf_spec Phi -> (Phi -> 0 at -oo) -> forall ..., ei_head ... <= 0
-   (and "EI = E[max(0, best - jitter - Y)], Y ~ N(mean, std^2)", a Gaussian integral, which
-   is NOT attempted).  Proved here: the head value is <= 0 (EI >= 0) for every input, from
-   three analytic facts about Phi, all true of the real Gaussian cdf and stated as
-   hypotheses: Phi' = gauss_pdf, Phi >= 0, and liminf_{u -> -oo} (u Phi(u) + pdf(u)) >= 0.
-   The last one is what a proof of Mills' bound Phi(u) <= pdf(u)/|u| would discharge. *)
-Theorem c09_ei_nonneg_partial :
-  forall Phi, cdf_spec Phi -> (forall u, 0 <= Phi u) ->
-    (forall eps, 0 < eps -> exists M, forall u, u < M -> - eps < u * Phi u + gauss_pdf u) ->
+(* EI is never negative.  The only facts assumed about Phi are the two that characterise the Gaussian cdf:
+   Phi' = gauss_pdf (cdf_spec) and Phi(u) -> 0 as u -> -oo ([tends_to_0_at_minus_infty], epsilon form; the
+   Coquelicot limit [is_lim Phi m_infty 0] implies it).  Derived, not assumed: Phi >= 0, Mills' bound
+   -u Phi(u) <= pdf(u) for u < 0, u Phi(u) + pdf(u) >= 0, and for ALL inputs (any fantasies, costs,
+   constraints, feasible or not) the EI, EIpu and CEI head values are <= 0, i.e. EI, EI/cost^e, CEI >= 0.
+   (This replaces the former c09_ei_nonneg_partial, whose extra hypotheses Phi >= 0 and
+   liminf (u Phi + pdf) >= 0 are now theorems.)
+   NOT proved: "EI = E[max(0, best - jitter - Y)], Y ~ N(mean, std^2)" (a Gaussian integral). *)
+Theorem c09_ei_nonneg :
+  forall Phi, cdf_spec Phi -> tends_to_0_at_minus_infty Phi ->
+    (forall u, 0 <= Phi u) /\
+    (forall u, u < 0 -> - u * Phi u <= gauss_pdf u) /\
     (forall u, 0 <= u * Phi u + gauss_pdf u) /\
-    (forall (C : Cfg R) (means : list R) (std : R) (bests : list R),
-       0 < c_std_min C -> ei_head (RO Phi) C means std bests <= 0).
+    (forall (C : Cfg R) (means : list R) (std : R) (bests costs : list R)
+            (obests : list (option R)) (means_c : list R) (std_c : R),
+       0 < c_std_min C ->
+       ei_head (RO Phi) C means std bests <= 0 /\
+       eipu_head (RO Phi) C means std bests costs <= 0 /\
+       cei_head (RO Phi) C means std obests means_c std_c <= 0).
 Proof.
-  intros Phi H Hnn Hlim. split.
-  - exact (ei_integrand_nonneg Phi H Hnn Hlim).
-  - exact (ei_head_nonpos Phi H Hnn Hlim).
+  intros Phi H Hlim. split; [|split; [|split]].
+  - exact (Phi_nonneg Phi H Hlim).
+  - exact (mills_bound Phi H Hlim).
+  - exact (ei_integrand_nonneg_full Phi H Hlim).
+  - intros C means std bests costs obests means_c std_c Hmin. split; [|split].
+    + exact (ei_head_nonpos_full Phi H Hlim C means std bests Hmin).
+    + exact (eipu_head_nonpos_full Phi H Hlim C means std bests costs Hmin).
+    + exact (cei_head_nonpos_full Phi H Hlim C means std obests means_c std_c Hmin).
 Qed.
-Print Assumptions c09_ei_nonneg_partial.
+Print Assumptions c09_ei_nonneg.
+
+(* the same with the standard limit notion *)
+Theorem c09_ei_nonneg_is_lim :
+  forall Phi, cdf_spec Phi -> is_lim Phi m_infty 0 -> forall u, 0 <= u * Phi u + gauss_pdf u.
+Proof. intros Phi H Hl. exact (ei_integrand_nonneg_full Phi H (is_lim_m_infty_0 Phi Hl)). Qed.
+Print Assumptions c09_ei_nonneg_is_lim.
+
+(* non-vacuity of c09_ei_nonneg: a function with BOTH properties exists (u |-> integral of the density
+   from 0 to u, shifted by its infimum) *)
+Example c09_example_gauss_cdf : exists Phi, cdf_spec Phi /\ tends_to_0_at_minus_infty Phi.
+Proof. exact gauss_cdf_exists. Qed.
+
+(* The std floor of get_quantiles is part of the head: below the floor (std < 1e-10) the value is the
+   value AT the floor (the closed form at max(std, floor)), and the head is flat in std there (its
+   derivative w.r.t. std is 0, whereas the code still returns the un-floored formula -pdf(u): the
+   derivative theorems above therefore require std above the floor). EI, EIpu, CEI; any Phi. *)
+Theorem c09_std_floor :
+  forall Phi (C : Cfg R) (means : list R) (std : R) (bests costs : list R)
+         (obests : list (option R)) (means_c : list R) (std_c : R),
+    std < c_std_min C ->
+    (is_derive (fun y => ei_head (RO Phi) C means y bests) std 0 /\
+     ei_head (RO Phi) C means std bests = ei_head (RO Phi) C means (c_std_min C) bests) /\
+    (is_derive (fun y => eipu_head (RO Phi) C means y bests costs) std 0 /\
+     eipu_head (RO Phi) C means std bests costs = eipu_head (RO Phi) C means (c_std_min C) bests costs) /\
+    (is_derive (fun y => cei_head (RO Phi) C means y obests means_c std_c) std 0 /\
+     cei_head (RO Phi) C means std obests means_c std_c =
+     cei_head (RO Phi) C means (c_std_min C) obests means_c std_c).
+Proof.
+  intros Phi C means std bests costs obests means_c std_c Hs. split; [|split].
+  - exact (ei_below_floor Phi gauss_pdf C means std bests Hs).
+  - exact (eipu_below_floor Phi gauss_pdf C means std bests costs Hs).
+  - exact (cei_below_floor Phi gauss_pdf C means std obests means_c std_c Hs).
+Qed.
+Print Assumptions c09_std_floor.
+
+Example c09_example_std_floor :
+  let C := mkCfg R (1/100) (1/4) (1/10^12) (1/10^12) 1 (1/2) in 0 < c_std_min C.
+Proof. cbn. lra. Qed.
+
+(* HyperTune ensemble over rung levels (mean = sum theta_r mu_r, variance = sum theta_r^2 var_r as the loop
+   of HyperTuneIndependentGPPosteriorState.predict computes them) pushed through
+   backward_gradient_given_predict: for ANY number of levels, any weights, any differentiable per-level
+   mu_r, var_r with positive ensemble variance, the derivative of the back-propagated scalar along an input
+   coordinate is [ens_backward]: hg_mean * std_data * sum theta_r mu_r' +
+   hg_std * std_data * (sum theta_r^2 var_r') / (2 sqrt(sum theta_r^2 var_r)) -- the chain rule through the
+   square root of the SUM, not a theta-weighted sum of per-level std gradients. *)
+Theorem c09_ensemble_backward :
+  forall Phi (x : R) (l : list flevel) (hg_mean hg_std mean_data std_data : R),
+    List.Forall (level_ok x) l -> 0 < snd (ens_predict (RO Phi) (inst l x)) ->
+    is_derive (fun y => backward_target (RO Phi) (ens_predict (RO Phi) (inst l y)) hg_mean hg_std mean_data std_data) x
+              (ens_backward (RO Phi) (inst l x) (dinst l) hg_mean hg_std std_data).
+Proof. intros Phi. exact (ens_backward_is_derivative Phi gauss_pdf). Qed.
+Print Assumptions c09_ensemble_backward.
+
+Example c09_example_ensemble :
+  let l : list flevel := [(1/2, (fun y => y), (fun y => 1 + y * y), 1, 2); (1/2, (fun y => 3 * y), (fun _ => 2), 3, 0)] in
+  List.Forall (level_ok 1) l /\ 0 < snd (ens_predict (RO (fun _ => 0)) (inst l 1)).
+Proof.
+  split.
+  - apply List.Forall_cons; [split; (auto_derive; [exact I | ring]) |].
+    apply List.Forall_cons; [split; (auto_derive; [exact I | ring]) | apply List.Forall_nil].
+  - unfold ens_predict, inst, RO. simpl. lra.
+Qed.
 
 (* non-vacuity: a cdf with the assumed derivative exists (the integral of the density), and
    the side conditions of the head theorems hold for a concrete two-fantasy input *)
